@@ -6,12 +6,12 @@ use num_bigint::{BigInt, BigUint, Sign};
 use num_traits::{CheckedAdd, CheckedSub};
 
 fn with_cap(x: &BigUint, extra: usize) -> BigUint {
-    let mut c = x.clone();
+    let mut c = x.roomy();
     c.verif_reserve(extra);
     c
 }
 fn with_cap_i(x: &BigInt, extra: usize) -> BigInt {
-    let mut c = x.clone();
+    let mut c = x.roomy();
     c.verif_reserve(extra);
     c
 }
@@ -20,16 +20,16 @@ fn with_cap_i(x: &BigInt, extra: usize) -> BigInt {
 pub fn forms_u(r: &mut Rec) {
     // addition
     r.uu("add", "ref_ref", 0, 1, 2, |a, b| a + b);
-    r.uu("add", "val_ref", 0, 1, 2, |a, b| a.clone() + b);
+    r.uu("add", "val_ref", 0, 1, 2, |a, b| a.roomy() + b);
     r.uu("add", "val_ref_cap", 0, 1, 2, |a, b| with_cap(a, b.verif_raw().len() + 3) + b);
-    r.uu("add", "ref_val", 0, 1, 2, |a, b| a + b.clone());
-    r.uu("add", "val_val", 0, 1, 2, |a, b| a.clone() + b.clone());
-    r.uu("add", "val_val_capb", 0, 1, 2, |a, b| a.clone() + with_cap(b, a.verif_raw().len() + 2));
-    r.uu("add", "val_val_capa", 0, 1, 2, |a, b| with_cap(a, b.verif_raw().len() + 2) + b.clone());
+    r.uu("add", "ref_val", 0, 1, 2, |a, b| a + b.roomy());
+    r.uu("add", "val_val", 0, 1, 2, |a, b| a.roomy() + b.roomy());
+    r.uu("add", "val_val_capb", 0, 1, 2, |a, b| a.roomy() + with_cap(b, a.verif_raw().len() + 2));
+    r.uu("add", "val_val_capa", 0, 1, 2, |a, b| with_cap(a, b.verif_raw().len() + 2) + b.roomy());
     r.clone_u(0, 2);
     r.u_assign("add", "assign_ref", 2, 1, |d, s| *d += s);
     r.clone_u(0, 2);
-    r.u_assign("add", "assign_val", 2, 1, |d, s| *d += s.clone());
+    r.u_assign("add", "assign_val", 2, 1, |d, s| *d += s.roomy());
     r.clone_u(1, 2);
     r.u_assign("add", "assign_ref_swapped", 2, 0, |d, s| *d += s);
     r.uu_opt("checked_add", "method", 0, 1, 2, |a, b| a.checked_add(b));
@@ -37,42 +37,42 @@ pub fn forms_u(r: &mut Rec) {
     r.uu_opt("checked_sub", "trait", 0, 1, 2, |a, b| num_traits::CheckedSub::checked_sub(a, b));
     // subtraction (panics when a < b)
     r.uu("sub", "ref_ref", 0, 1, 2, |a, b| a - b);
-    r.uu("sub", "val_ref", 0, 1, 2, |a, b| a.clone() - b);
-    r.uu("sub", "ref_val", 0, 1, 2, |a, b| a - b.clone());
+    r.uu("sub", "val_ref", 0, 1, 2, |a, b| a.roomy() - b);
+    r.uu("sub", "ref_val", 0, 1, 2, |a, b| a - b.roomy());
     r.uu("sub", "ref_val_cap", 0, 1, 2, |a, b| a - with_cap(b, a.verif_raw().len() + 2));
-    r.uu("sub", "val_val", 0, 1, 2, |a, b| a.clone() - b.clone());
+    r.uu("sub", "val_val", 0, 1, 2, |a, b| a.roomy() - b.roomy());
     r.clone_u(0, 2);
     r.u_assign("sub", "assign_ref", 2, 1, |d, s| *d -= s);
     r.clone_u(0, 2);
-    r.u_assign("sub", "assign_val", 2, 1, |d, s| *d -= s.clone());
+    r.u_assign("sub", "assign_val", 2, 1, |d, s| *d -= s.roomy());
     r.uu_opt("checked_sub", "method", 0, 1, 2, |a, b| a.checked_sub(b));
     // the other direction
     r.uu("sub", "ref_ref", 1, 0, 2, |a, b| a - b);
-    r.uu("sub", "ref_val", 1, 0, 2, |a, b| a - b.clone());
-    r.uu("sub", "val_ref", 1, 0, 2, |a, b| a.clone() - b);
+    r.uu("sub", "ref_val", 1, 0, 2, |a, b| a - b.roomy());
+    r.uu("sub", "val_ref", 1, 0, 2, |a, b| a.roomy() - b);
     r.uu_opt("checked_sub", "method", 1, 0, 2, |a, b| a.checked_sub(b));
 }
 
 pub fn forms_i(r: &mut Rec, full: bool) {
     r.ii("add", "ref_ref", 0, 1, 2, |a, b| a + b);
     r.ii("sub", "ref_ref", 0, 1, 2, |a, b| a - b);
-    r.ii("add", "val_val", 0, 1, 2, |a, b| a.clone() + b.clone());
-    r.ii("sub", "val_val", 0, 1, 2, |a, b| a.clone() - b.clone());
+    r.ii("add", "val_val", 0, 1, 2, |a, b| a.roomy() + b.roomy());
+    r.ii("sub", "val_val", 0, 1, 2, |a, b| a.roomy() - b.roomy());
     if full {
-        r.ii("add", "val_ref", 0, 1, 2, |a, b| a.clone() + b);
-        r.ii("add", "ref_val", 0, 1, 2, |a, b| a + b.clone());
-        r.ii("add", "val_val_capb", 0, 1, 2, |a, b| a.clone() + with_cap_i(b, a.magnitude().verif_raw().len() + 2));
-        r.ii("sub", "val_ref", 0, 1, 2, |a, b| a.clone() - b);
-        r.ii("sub", "ref_val", 0, 1, 2, |a, b| a - b.clone());
+        r.ii("add", "val_ref", 0, 1, 2, |a, b| a.roomy() + b);
+        r.ii("add", "ref_val", 0, 1, 2, |a, b| a + b.roomy());
+        r.ii("add", "val_val_capb", 0, 1, 2, |a, b| a.roomy() + with_cap_i(b, a.magnitude().verif_raw().len() + 2));
+        r.ii("sub", "val_ref", 0, 1, 2, |a, b| a.roomy() - b);
+        r.ii("sub", "ref_val", 0, 1, 2, |a, b| a - b.roomy());
         r.ii("sub", "ref_val_cap", 0, 1, 2, |a, b| a - with_cap_i(b, a.magnitude().verif_raw().len() + 2));
         r.clone_i(0, 2);
         r.i_assign("add", "assign_ref", 2, 1, |d, s| *d += s);
         r.clone_i(0, 2);
-        r.i_assign("add", "assign_val", 2, 1, |d, s| *d += s.clone());
+        r.i_assign("add", "assign_val", 2, 1, |d, s| *d += s.roomy());
         r.clone_i(0, 2);
         r.i_assign("sub", "assign_ref", 2, 1, |d, s| *d -= s);
         r.clone_i(0, 2);
-        r.i_assign("sub", "assign_val", 2, 1, |d, s| *d -= s.clone());
+        r.i_assign("sub", "assign_val", 2, 1, |d, s| *d -= s.roomy());
         r.ii_opt("checked_add", "method", 0, 1, 2, |a, b| a.checked_add(b));
         r.ii_opt("checked_add", "trait", 0, 1, 2, |a, b| num_traits::CheckedAdd::checked_add(a, b));
         r.ii_opt("checked_sub", "trait", 0, 1, 2, |a, b| num_traits::CheckedSub::checked_sub(a, b));
@@ -92,35 +92,35 @@ fn scalar_forms(r: &mut Rec, rng: &mut Rng) {
         Ret::none()
     });
     r.op("add", "val_u64", &[u(0)], &[u(2)], &ex(&s64.sc()), |g| {
-        g.u[2] = g.u[0].clone() + s64;
+        g.u[2] = g.u[0].roomy() + s64;
         Ret::none()
     });
     r.op("add", "val_u128", &[u(0)], &[u(2)], &ex(&s128.sc()), |g| {
-        g.u[2] = g.u[0].clone() + s128;
+        g.u[2] = g.u[0].roomy() + s128;
         Ret::none()
     });
     r.op("add", "u128_val", &[u(0)], &[u(2)], &exr(&s128.sc()), |g| {
-        g.u[2] = s128 + g.u[0].clone();
+        g.u[2] = s128 + g.u[0].roomy();
         Ret::none()
     });
     r.op("sub", "val_u32", &[u(0)], &[u(2)], &ex(&s32.sc()), |g| {
-        g.u[2] = g.u[0].clone() - s32;
+        g.u[2] = g.u[0].roomy() - s32;
         Ret::none()
     });
     r.op("sub", "val_u64", &[u(0)], &[u(2)], &ex(&s64.sc()), |g| {
-        g.u[2] = g.u[0].clone() - s64;
+        g.u[2] = g.u[0].roomy() - s64;
         Ret::none()
     });
     r.op("sub", "val_u128", &[u(0)], &[u(2)], &ex(&s128.sc()), |g| {
-        g.u[2] = g.u[0].clone() - s128;
+        g.u[2] = g.u[0].roomy() - s128;
         Ret::none()
     });
     r.op("sub", "u64_val", &[u(0)], &[u(2)], &exr(&s64.sc()), |g| {
-        g.u[2] = s64 - g.u[0].clone();
+        g.u[2] = s64 - g.u[0].roomy();
         Ret::none()
     });
     r.op("sub", "u128_val", &[u(0)], &[u(2)], &exr(&s128.sc()), |g| {
-        g.u[2] = s128 - g.u[0].clone();
+        g.u[2] = s128 - g.u[0].roomy();
         Ret::none()
     });
     r.op("sub", "u32_ref", &[u(0)], &[u(2)], &exr(&s32.sc()), |g| {
